@@ -52,6 +52,7 @@ type Harness struct {
 	Redirect      map[string]string         `json:"redirect"`
 	Blackhole     []string                  `json:"blackhole"`
 	SkipFuncs     []string                  `json:"skip_funcs"`
+	Models        []string                  `json:"models"` // opt-in engine models of library functions
 	NoModelCache  bool                      `json:"no_model_cache"`
 	Tiers         []string                  `json:"tiers"` // tiers in which the harness runs (default both)
 	Claim         string                    `json:"claim"`
@@ -450,12 +451,16 @@ func runHarness(spec *Spec, h *Harness, tier string, workers int, verbose bool, 
 		redirect[k] = v
 	}
 	skip := map[string]bool{}
+	models := map[string]bool{}
+	for _, m := range h.Models {
+		models[m] = true
+	}
 	for _, f := range h.SkipFuncs {
 		skip[f] = true
 	}
 	mkcfg := func() interp.Config {
 		return interp.Config{RTPath: repoMod + "/verifrt", Blackhole: append(append([]string(nil), defaultBlackhole...), h.Blackhole...),
-			NoModelCache: os.Getenv("VERIF_NOMODEL") != "" || h.NoModelCache, SkipFuncs: skip, Redirect: redirect, MaxSteps: h.MaxSteps, PanicOK: h.PanicOK, Verbose: verbose, Params: hr.params}
+			NoModelCache: os.Getenv("VERIF_NOMODEL") != "" || h.NoModelCache, SkipFuncs: skip, Models: models, Redirect: redirect, MaxSteps: h.MaxSteps, PanicOK: h.PanicOK, Verbose: verbose, Params: hr.params}
 	}
 	runJob := func(prefix []int, discover int) (*jobResult, error) {
 		sol, err := smt.New(hr.solver, timeout)
